@@ -24,12 +24,12 @@ from common import Broken, Violation
 MANIFEST = {
     "text": "23 theorems (all closed) about a set-valued exception-flow model of everything that runs outside "
             "_check_property's generic wrapper, for ALL JSON inputs, all json.loads behaviours, both interoperability values, "
-            "every mode of the code under check (14 guardable sites, refuse-unrequested-custom, strict unregistered "
+            "every mode of the code under check (15 guardable sites, refuse-unrequested-custom, strict unregistered "
             "extension) and EVERY well-behaved black-box property cleaner (raises any Exception class, known or "
             "user-derived, whose __str__ returns): wrapper_total / wrapper_only / wrapper_str_failure_escapes; an "
             "exception outside {STIXError, ValueError, TypeError} can only originate at an unguarded site "
             "(nonfamily_only_at_unguarded_sites), hence family_only for parse, parse of a file, parse_observable, "
-            "dict_to_stix2 and direct construction; each of the 14 sites refuted by a concrete input on the live class "
+            "dict_to_stix2 and direct construction; each of the 15 sites refuted by a concrete input on the live class "
             "tables; the evaluated (set-valued and structural) models cover every black box. CLOSED-WORLD: in the model a "
             "non-family class can only be produced at one of the enumerated sites, so family_only* / "
             "nonfamily_only_at_unguarded_sites check the model's own labelling; that the code has no further site rests on "
@@ -57,7 +57,8 @@ MANIFEST = {
             "slots dropped, unknown/reserved keys, deep values (300..3000 levels) at every nesting site x entry point x "
             "with/without id, via parse / text / file / "
             "dict_to_stix2 / parse_observable / construction / MemoryStore.add, raw JSON values and texts, a worker with "
-            "user-registered classes (forked per case), deep nesting; quick samples 14 000 + 1 377, thorough ~193 000. "
+            "user-registered classes (forked per case; deep snapshot incl. Property-object state; history pairs: a failed call under "
+            "one flag combination, then another, against a pristine process), huge integers at id-contributing positions, deep nesting; quick samples 14 000 + 1 377, thorough ~193 000. "
             "ORACLE-only (model-independent): family membership of whatever escapes, deep registry snapshot unchanged by a "
             "failing call, store unchanged by a failing add, deep-nesting inputs. An implementation Ok where the structural "
             "model has no successful outcome is reported as a violation of 'returns a fully validated object' "
